@@ -56,11 +56,13 @@ func (k *Keeper) SessionInactiveHook(ctx sdk.Context, id uint64, accAddr sdk.Acc
 		previousAmount = hubutils.AmountForBytes(gigabytePrice.Amount, alloc.UtilisedBytes)
 	}
 
-	// Update the allocation's utilized bytes by adding the provided bytes.
-	alloc.UtilisedBytes = alloc.UtilisedBytes.Add(utilisedBytes)
-	// Ensure that the utilized bytes don't exceed the granted bytes.
-	if alloc.UtilisedBytes.GT(alloc.GrantedBytes) {
+	// Update the allocation's utilized bytes by adding the provided bytes,
+	// ensuring that the utilized bytes don't exceed the granted bytes.
+	// The comparison is done before the addition so that it cannot overflow.
+	if utilisedBytes.GT(alloc.GrantedBytes.Sub(alloc.UtilisedBytes)) {
 		alloc.UtilisedBytes = alloc.GrantedBytes
+	} else {
+		alloc.UtilisedBytes = alloc.UtilisedBytes.Add(utilisedBytes)
 	}
 
 	// Save the updated allocation to the store.
